@@ -56,9 +56,10 @@ def fxCreateTable : List String :=
 /-- what `CreateTable` returns on success -/
 def retCreateTable : String := "view.FileInfo;nil"
 
-/-- `AddColumns`, reviewed -/
+/-- `AddColumns`, reviewed (since F99 / ebfcabd: the stored delimiter positions of a fixed-length table are reset
+    AFTER the last step that can fail — the FileInfo is shared with the cached table) -/
 def fxAddColumns : List String :=
-  ["if{", "}", "lock", "if(err){", "return", "}", "defer:unlock", "load(forUpdate=true,ids=false)", "if(err){", "return", "}", "if(notUpdatable){", "return", "}", "switch{", "case{", "}", "case{", "}", "case{", "field_lookup", "if(err){", "return", "}", "switch{", "case{", "}", "case{", "}", "}", "}", "}", "loop(columnNames){", "}", "loop(query.Columns){", "if{", "return", "}", "}", "loop(view.Header){", "if{", "}", "else{", "}", "}", "loop(addHeader){", "}", "loop(header){", "}", "evaluate_each_record{", "loop(view.RecordSet[rIdx]){", "if{", "}", "else{", "}", "}", "loop(defaults){", "if{", "}", "evaluate", "if(err){", "return", "}", "}", "return", "}", "if(err){", "return", "}", "set_header(view)", "set_records(view)", "if(inMemory){", "publish_temp(view)", "}", "else{", "if(isFile){", "publish_file(view)", "}", "}", "return"]
+  ["if{", "}", "lock", "if(err){", "return", "}", "defer:unlock", "load(forUpdate=true,ids=false)", "if(err){", "return", "}", "if(notUpdatable){", "return", "}", "switch{", "case{", "}", "case{", "}", "case{", "field_lookup", "if(err){", "return", "}", "switch{", "case{", "}", "case{", "}", "}", "}", "}", "loop(columnNames){", "}", "loop(query.Columns){", "if{", "return", "}", "}", "loop(view.Header){", "if{", "}", "else{", "}", "}", "loop(addHeader){", "}", "loop(header){", "}", "evaluate_each_record{", "loop(view.RecordSet[rIdx]){", "if{", "}", "else{", "}", "}", "loop(defaults){", "if{", "}", "evaluate", "if(err){", "return", "}", "}", "return", "}", "if(err){", "return", "}", "set_header(view)", "set_records(view)", "if{", "write_fileinfo_field(DelimiterPositions)", "}", "if(inMemory){", "publish_temp(view)", "}", "else{", "if(isFile){", "publish_file(view)", "}", "}", "return"]
 
 /-- what `AddColumns` returns on success -/
 def retAddColumns : String := "view.FileInfo;len(fields);err"
